@@ -55,8 +55,15 @@ def evaluate(it, fn):
             try:
                 got = minieval.ev(it, env)
                 seq = []
+                def flat(x):
+                    # `for op, (o0, i0, ..) in zip(rows[:, 0], rows[:, 1:])`: an item may be nested the way the loop target is
+                    if isinstance(x, (tuple, list)) or getattr(type(x), '_kv_array', False):
+                        for y in x:
+                            yield from flat(y)
+                    else:
+                        yield int(x)
                 for r in got:
-                    seq.append([int(x) for x in r])
+                    seq.append(list(flat(r)))
             except ModelError:
                 raise
             except (IndexError, KeyError, TypeError, AttributeError, ValueError) as e:
